@@ -246,8 +246,9 @@ func c13Lex(p string) string {
 // ---------------------------------------------------------------------------------------------
 
 type c13G struct {
-	r *vRand
-	o *vOut
+	r       *vRand
+	o       *vOut
+	subHint int // extended-community sub-type the next generated EC should mostly carry (0 = none)
 }
 
 func (g *c13G) pickS(xs ...string) string { return xs[g.r.intn(len(xs))] }
@@ -562,6 +563,10 @@ func (g *c13G) community(hints []uint32) uint32 {
 	if len(hints) >= 2 && g.r.chance(20) {
 		return uint32(g.as())<<16 | hints[2*g.r.intn(len(hints)/2)]
 	}
+	if len(hints) >= 2 && g.r.chance(30) {
+		// the first number as AS, any local (patterns such as ^100:.*$)
+		return hints[0]<<16 | g.loc()
+	}
 	part := func() uint32 {
 		switch k := g.r.intn(100); {
 		case k < 55 && len(hints) > 0:
@@ -821,12 +826,12 @@ func (h *c13H) sweepStd(raw string, s *CommunitySet) {
 }
 
 func (h *c13H) stdComms(raws []string, n int) []uint32 {
-	var hints []uint32
-	for _, r := range raws {
-		hints = append(hints, c13Numbers(c13PrepSource(r))...)
-	}
 	comms := make([]uint32, n)
 	for i := range comms {
+		var hints []uint32
+		if len(raws) > 0 {
+			hints = c13Numbers(c13PrepSource(raws[h.g.r.intn(len(raws))]))
+		}
 		comms[i] = h.g.community(hints)
 	}
 	return comms
@@ -941,113 +946,6 @@ func (h *c13H) stdLists() {
 				o.ask(c13B(got), "ev %d %s %s", opt, c13HexList(raws), c13List(comms))
 				o.stat(fmt.Sprintf("std_ev_opt%d_%s", opt, c13B(got)), 1)
 			}
-		}
-	}
-}
-
-// edit sequences: Append / Remove / Replace, then the compiled form must be that of the edited list
-func (h *c13H) stdEdits(id *int) {
-	o, g := h.o, h.g
-	mk := func() ([]string, *CommunitySet) {
-		for {
-			n := g.r.intn(4)
-			raws := make([]string, n)
-			for i := range raws {
-				_, raws[i] = g.stdPattern()
-				if g.r.chance(50) {
-					raws[i] = g.pickS("100:5", "^100:.*$", `^\d+:(5|7)$`, "^200:(5|6)$", "100:7", `^100:5\d$`, "65000:100", "^1.*:5$")
-				}
-			}
-			if c13ListStatus(raws, c13PrepSource) != "ok" {
-				continue
-			}
-			s, err := c13NewSet(raws)
-			if err != nil || s == nil {
-				continue
-			}
-			return raws, s
-		}
-	}
-	baseRaws, base := mk()
-	*id++
-	baseID := *id
-	o.op("set %d %s", baseID, c13HexList(baseRaws))
-	expect := make([]string, 0) // the harness's own idea of the edited pattern list
-	for _, re := range base.list {
-		expect = append(expect, re.String())
-	}
-	for step := 0; step < 4; step++ {
-		argRaws, arg := mk()
-		*id++
-		argID := *id
-		o.op("set %d %s", argID, c13HexList(argRaws))
-		kind := g.r.intn(3)
-		var err error
-		var argSrc []string
-		for _, re := range arg.list {
-			argSrc = append(argSrc, re.String())
-		}
-		switch kind {
-		case 0:
-			err = base.Append(arg)
-			expect = append(expect, argSrc...)
-		case 1:
-			err = base.Remove(arg)
-			var kept []string
-			for _, x := range expect {
-				found := false
-				for _, y := range argSrc {
-					if x == y {
-						found = true
-					}
-				}
-				if !found {
-					kept = append(kept, x)
-				}
-			}
-			expect = kept
-		default:
-			err = base.Replace(arg)
-			expect = append([]string(nil), argSrc...)
-		}
-		if err != nil {
-			o.fail("std-edit-error", map[string]any{"kind": kind, "error": err.Error()})
-			return
-		}
-		o.op("edit %d %d %d", baseID, kind, argID)
-		o.stat(fmt.Sprintf("std_edit_kind%d", kind), 1)
-		got := base.List()
-		if strings.Join(got, "\x00") != strings.Join(expect, "\x00") {
-			o.fail("std-edit-list-wrong", map[string]any{"kind": kind, "got": got, "want": expect})
-			return
-		}
-		if len(base.matchers) != len(base.list) {
-			o.fail("std-edit-compiled-form-stale", map[string]any{"kind": kind, "matchers": len(base.matchers), "list": len(base.list)})
-			return
-		}
-		// compiled form == compilation of the edited list
-		fresh, anyIdx := buildCommunityMatchers(base.list)
-		_ = anyIdx
-		modes := make([]string, len(base.matchers))
-		for i, m := range base.matchers {
-			modes[i] = fmt.Sprint(m.mode)
-			if m.mode != fresh[i].mode || m.asn != fresh[i].asn || m.exact != fresh[i].exact || m.listIndex != fresh[i].listIndex {
-				o.fail("std-edit-compiled-form-stale", map[string]any{"kind": kind, "index": i})
-				return
-			}
-		}
-		srcHex := make([]string, len(got))
-		for i := range got {
-			srcHex[i] = c13Hex(got[i])
-		}
-		dump := fmt.Sprintf("%d %s | %s", len(got), strings.Join(modes, " "), strings.Join(srcHex, " "))
-		o.ask(dump, "sdump %d", baseID)
-		for k := 0; k < 3; k++ {
-			comms := h.stdComms(got, g.r.intn(4))
-			h.oracleStd(got, base, comms)
-			opt := g.r.intn(3)
-			res := (&CommunityCondition{set: base, option: c13Opts[opt]}).Evaluate(c13Path(comms, nil, nil), nil)
-			o.ask(c13B(res), "sev %d %d %s", baseID, opt, c13List(comms))
 		}
 	}
 }
@@ -1208,6 +1106,9 @@ func c13XListStatus(raws []string) string {
 
 func (g *c13G) ec(hints []uint32) bgp.ExtendedCommunityInterface {
 	sub := bgp.ExtendedCommunityAttrSubType(g.r.pick(2, 2, 2, 2, 2, 3, 3, 3, 4, 12, 5))
+	if g.subHint != 0 && g.r.chance(75) {
+		sub = bgp.ExtendedCommunityAttrSubType(g.subHint)
+	}
 	cc := g.community(hints)
 	a := uint16(cc >> 16)
 	var la uint32
@@ -1319,14 +1220,27 @@ func (h *c13H) oracleExt(raws []string, s *ExtCommunitySet, es []bgp.ExtendedCom
 }
 
 func (h *c13H) extECs(raws []string, n int) []bgp.ExtendedCommunityInterface {
-	var hints []uint32
-	for _, r := range raws {
-		hints = append(hints, c13Numbers(r)...)
-	}
 	es := make([]bgp.ExtendedCommunityInterface, n)
 	for i := range es {
+		var hints []uint32
+		h.g.subHint = 0
+		if len(raws) > 0 {
+			raw := raws[h.g.r.intn(len(raws))]
+			hints = c13Numbers(raw)
+			switch strings.ToLower(strings.SplitN(raw, ":", 2)[0]) {
+			case "rt":
+				h.g.subHint = 2
+			case "soo":
+				h.g.subHint = 3
+			case "lb":
+				h.g.subHint = 4
+			case "encap":
+				h.g.subHint = 12
+			}
+		}
 		es[i] = h.g.ec(hints)
 	}
+	h.g.subHint = 0
 	return es
 }
 
@@ -1373,6 +1287,9 @@ func (h *c13H) extOne(kind, raw string) {
 func (h *c13H) extLists() {
 	o, g := h.o, h.g
 	n := 1 + g.r.intn(4)
+	if g.r.chance(3) {
+		n = 0 // NewExtCommunitySet with an empty list is legal
+	}
 	raws := make([]string, n)
 	for i := range raws {
 		_, raws[i] = g.extPattern()
@@ -1409,110 +1326,6 @@ func (h *c13H) extLists() {
 	}
 }
 
-func (h *c13H) extEdits(id *int) {
-	o, g := h.o, h.g
-	mk := func() ([]string, *ExtCommunitySet) {
-		for {
-			n := g.r.intn(4)
-			raws := make([]string, n)
-			for i := range raws {
-				_, raws[i] = g.extPattern()
-				if g.r.chance(50) {
-					raws[i] = g.pickS("rt:100:5", "rt:^100:.*$", `rt:^\d+:(5|7)$`, "soo:^200:(5|6)$", "soo:100:5", `rt:^100:5\d$`, "rt:65000:100000", "soo:^1.*:5$")
-				}
-			}
-			if c13XListStatus(raws) != "ok" {
-				continue
-			}
-			s, err := c13NewXSet(raws)
-			if err != nil || s == nil {
-				continue
-			}
-			return raws, s
-		}
-	}
-	type ent struct {
-		sub bgp.ExtendedCommunityAttrSubType
-		src string
-	}
-	ents := func(s *ExtCommunitySet) []ent {
-		var out []ent
-		for i, re := range s.list {
-			out = append(out, ent{s.subtypeList[i], re.String()})
-		}
-		return out
-	}
-	baseRaws, base := mk()
-	*id++
-	baseID := *id
-	o.op("xset %d %s", baseID, c13HexList(baseRaws))
-	expect := ents(base)
-	for step := 0; step < 4; step++ {
-		argRaws, arg := mk()
-		*id++
-		argID := *id
-		o.op("xset %d %s", argID, c13HexList(argRaws))
-		kind := g.r.intn(3)
-		argE := ents(arg)
-		var err error
-		switch kind {
-		case 0:
-			err = base.Append(arg)
-			expect = append(expect, argE...)
-		case 1:
-			err = base.Remove(arg)
-			var kept []ent
-			for _, x := range expect {
-				found := false
-				for _, y := range argE {
-					if x.src == y.src && x.sub == y.sub { // a member is a sub-type plus a pattern text
-						found = true
-					}
-				}
-				if !found {
-					kept = append(kept, x)
-				}
-			}
-			expect = kept
-		default:
-			err = base.Replace(arg)
-			expect = append([]ent(nil), argE...)
-		}
-		if err != nil {
-			o.fail("ext-edit-error", map[string]any{"kind": kind, "error": err.Error()})
-			return
-		}
-		o.op("xedit %d %d %d", baseID, kind, argID)
-		o.stat(fmt.Sprintf("ext_edit_kind%d", kind), 1)
-		got := ents(base)
-		if fmt.Sprint(got) != fmt.Sprint(expect) {
-			o.fail("ext-edit-list-wrong", map[string]any{"kind": kind, "got": fmt.Sprint(got), "want": fmt.Sprint(expect)})
-			return
-		}
-		if len(base.matchers) != len(base.list) || len(base.subtypeList) != len(base.list) {
-			o.fail("ext-edit-compiled-form-stale", map[string]any{"kind": kind})
-			return
-		}
-		var parts, modes []string
-		for i, e := range got {
-			parts = append(parts, fmt.Sprintf("%d:%s", e.sub, c13Hex(e.src)))
-			modes = append(modes, fmt.Sprint(base.matchers[i].mode))
-		}
-		o.ask(fmt.Sprintf("%d %s | %s", len(got), strings.Join(modes, " "), strings.Join(parts, " ")), "xsdump %d", baseID)
-		var rawsNow []string
-		for _, e := range got {
-			rawsNow = append(rawsNow, e.src)
-		}
-		for k := 0; k < 3; k++ {
-			es := h.extECs(rawsNow, g.r.intn(4))
-			h.oracleExt(rawsNow, base, es)
-			opt := g.r.intn(3)
-			res := (&ExtCommunityCondition{set: base, option: c13Opts[opt]}).Evaluate(c13Path(nil, es, nil), nil)
-			o.ask(c13B(res), "xsev %d %d %s", baseID, opt, c13ECList(es))
-		}
-	}
-}
-
 // ---------------------------------------------------------------------------------------------
 // large communities
 // ---------------------------------------------------------------------------------------------
@@ -1520,6 +1333,9 @@ func (h *c13H) extEdits(id *int) {
 func (h *c13H) large() {
 	o, g := h.o, h.g
 	n := 1 + g.r.intn(3)
+	if g.r.chance(3) {
+		n = 0 // NewLargeCommunitySet with an empty list is legal
+	}
 	raws := make([]string, n)
 	for i := range raws {
 		a, b, c := g.as(), g.loc(), g.loc()
@@ -1660,6 +1476,7 @@ func TestVerifC13(t *testing.T) {
 		}
 		h.oracleExt([]string{c.raw}, s, []bgp.ExtendedCommunityInterface{bgp.NewTwoOctetAsSpecificExtended(bgp.EC_SUBTYPE_ROUTE_TARGET, c.as, c.la, true)})
 		h.extOne("corpus", c.raw)
+		h.sweepExt(c.raw)
 	}
 
 	scale := 1
@@ -1675,8 +1492,8 @@ func TestVerifC13(t *testing.T) {
 	for i := 0; i < 500*scale; i++ {
 		h.stdLists()
 	}
-	for i := 0; i < 120*scale; i++ {
-		h.stdEdits(&id)
+	for i := 0; i < 150*scale; i++ {
+		h.stdHistory(&id, g.history(i, h.stdPool))
 	}
 	for i := 0; i < 1500*scale; i++ {
 		h.rxStream()
@@ -1684,14 +1501,20 @@ func TestVerifC13(t *testing.T) {
 	for i := 0; i < 700*scale; i++ {
 		kind, raw := g.extPattern()
 		h.extOne(kind, raw)
+		if o.thorough && i%4 == 0 || i%40 == 0 {
+			h.sweepExt(raw)
+		}
 	}
 	for i := 0; i < 400*scale; i++ {
 		h.extLists()
 	}
-	for i := 0; i < 100*scale; i++ {
-		h.extEdits(&id)
+	for i := 0; i < 150*scale; i++ {
+		h.extHistory(&id, g.history(i, h.extPool))
 	}
 	for i := 0; i < 150*scale; i++ {
 		h.large()
+	}
+	for i := 0; i < 100*scale; i++ {
+		h.largeHistory(g.history(i, h.largePool))
 	}
 }
